@@ -78,7 +78,11 @@ def gen_fn(src, shape):
         L.append("    let p = AsPar::par(arr);")
     elif src == 'I':
         L.append("    let src: Vec<Item> = make_owned(ctx);")
-        L.append("    let p = src.into_con_iter().into_par();")
+        L.append("    let it = src.into_con_iter();")
+        L.append("    for _ in 0..ctx.case.pre_consumed {")
+        L.append("        let _ = orx_concurrent_iter::ConcurrentIterX::next(&it);")
+        L.append("    }")
+        L.append("    let p = it.into_par();")
     elif src == 'W':
         elem = "&'a Item"
         L.append("    let sl: &'a [Item] = &ctx.src_items[..];")
